@@ -329,7 +329,11 @@ The parameters of this process are described within the [Stack.IsEqual]
 notes.
 */
 func (r Condition) IsEqual(o any) (err error) {
-	if r.IsInit() {
+	if !r.IsInit() {
+		// invalid instances are never equal to anything
+		// (see the notes of Stack.IsEqual)
+		err = errorf("Not initialized")
+	} else {
 		// handle condition/condition-alias assertion
 		// and exit immediately if it fails due to a
 		// bad type, or uninitialized input for o.
